@@ -75,15 +75,21 @@ static std::string run_case(const toks_t& t)
         rlbox::tainted<T, Sbx> x = parse_val<T>(t.at(2));
         auto o = x.to_opaque();
         static_assert(sizeof(o) == sizeof(x) && sizeof(x) == sizeof(T));
-        auto back = rlbox::from_opaque(o);
-        out = "IMG=" + hex(&x, sizeof(x)) + " OPQ=" + hex(&o, sizeof(o)) + " BACK=" + show_val(back.UNSAFE_unverified());
+        std::string opq_img = hex(&o, sizeof(o));
+        // the value converted back is a value of its own (bound the way callers may bind it): what happens to the opaque
+        // slot afterwards does not concern it
+        const auto& back = rlbox::from_opaque(o);
+        std::memset(static_cast<void*>(&o), 0, sizeof(o));
+        out = "IMG=" + hex(&x, sizeof(x)) + " OPQ=" + opq_img + " BACK=" + show_val(back.UNSAFE_unverified());
       }
     });
   } else if (op == "opqp") {
     auto x = mk_tptr<int*>(sb, t.at(1));
     auto o = x.to_opaque();
-    auto back = rlbox::from_opaque(o);
-    out = "IMG=" + hex(&x, sizeof(x)) + " OPQ=" + hex(&o, sizeof(o)) + " BACK=" + std::to_string(reinterpret_cast<uintptr_t>(back.UNSAFE_unverified()));
+    std::string opq_img = hex(&o, sizeof(o));
+    const auto& back = rlbox::from_opaque(o);
+    std::memset(static_cast<void*>(&o), 0, sizeof(o));
+    out = "IMG=" + hex(&x, sizeof(x)) + " OPQ=" + opq_img + " BACK=" + std::to_string(reinterpret_cast<uintptr_t>(back.UNSAFE_unverified()));
   } else if (op == "opqs") {
     auto x = mk_s1(sb, t.at(1) + ";" + t.at(2) + ";" + t.at(3) + ";" + t.at(4));
     auto o = x.to_opaque();
